@@ -274,15 +274,24 @@ class SummaryActions(object):
     self.docmodel.remove(delete_fields)
 
     # Update fields for all formula fields and reused group-by fields to point to new columns.
-    colid_to_field_map = {field.colRef.colId: field for field in view_section.fields}
+    # Fields are found by the id their column had in the old table: a formula column may have been
+    # added to the new table under a different id (when that table already had a column of that id
+    # with another formula), and a section may show the same column in more than one field.
+    colid_to_fields_map = {}
+    for field in view_section.fields:
+      colid_to_fields_map.setdefault(field.colRef.colId, []).append(field)
     prev_group_fields = [
-      colid_to_field_map[col.colId] for col in prev_group_cols
-      if col.colId in colid_to_field_map
+      field for col in prev_group_cols
+      for field in colid_to_fields_map.get(col.colId, [])
     ]
     source_col_map = dict(zip(source_groupby_columns, groupby_columns))
     prev_group_columns = [source_col_map[f.colRef.summarySourceCol] for f in prev_group_fields]
-    visible_formula_columns = [c for c in formula_columns if c.colId in colid_to_field_map]
-    formula_fields = [colid_to_field_map[c.colId] for c in visible_formula_columns]
+    visible_formula_pairs = [
+      (field, col) for (ci, col) in zip(formula_colinfo, formula_columns)
+      for field in colid_to_fields_map.get(ci.colId, [])
+    ]
+    formula_fields = [field for (field, _) in visible_formula_pairs]
+    visible_formula_columns = [col for (_, col) in visible_formula_pairs]
     self.docmodel.update(formula_fields + prev_group_fields,
                          colRef=[c.id for c in visible_formula_columns + prev_group_columns])
 
